@@ -131,6 +131,38 @@ theorem merged_cell_clean {m : Table} {wc : Char → Int} (hc : coversControls m
   subst hx
   exact merge_no_control hc hw h0
 
+
+/-- `Char.__init__` only looks up the WHOLE string: with single-character keys, a string of any
+    other length is stored as it is.  (So the constructor alone does not sanitise multi-character
+    strings; the sites that build such cells — the zero-width merge, and re-styling an existing
+    cell — are covered by `merged_cell_clean` / `mkCell_clean`.) -/
+theorem mkCell_multichar_passthrough {m : Table} (wc : Char → Int) (hk : keysSingle m = true)
+    {s : Text} (hs : s.length ≠ 1) (style : Text) :
+    (mkCell m wc s style).char = s ∧ (mkCell m wc s style).style = style := by
+  have hl : lookup m s = none := by
+    induction m with
+    | nil => rfl
+    | cons kv rest ih =>
+      obtain ⟨k, v⟩ := kv
+      simp only [keysSingle, List.all_cons, Bool.and_eq_true, beq_iff_eq] at hk
+      simp only [lookup]
+      split
+      · rename_i h; subst h; exact absurd hk.1 hs
+      · exact ih hk.2
+  simp [mkCell, hl]
+
+-- witness on the real table: a two-character string containing ESC is stored raw
+example : (mkCell Gen.C10.displayMappings Gen.C10.wcwidth [ESC, 'x'] []).char = [ESC, 'x'] := by decide +kernel
+
+/-- Re-styling a cell (`fill_area`, `append_style_to_content`, cursor line/column highlighting:
+    `_CHAR_CACHE[cell.char, new_style]`) keeps it control-free. -/
+theorem restyle_clean {m : Table} (wc : Char → Int) (hp : valuesPrintable m = true)
+    {cell : Cell} (hc : Clean cell.char) (style' : Text) : Clean (mkCell m wc cell.char style').char :=
+  mkCell_clean wc hp hc style'
+
+example : Clean (mkCell Gen.C10.displayMappings Gen.C10.wcwidth ['^', '['] ['x']).char :=
+  (cleanB_iff _).mp (by decide +kernel)
+
 /-- A control character is always displayed with width ≥ 1. -/
 theorem control_cell_width_pos {m : Table} {wc : Char → Int} (hc : coversControls m = true)
     (hw : valuesWidthPos m wc = true) {c : Char} (style : Text) (hx : isControl c = true) :
